@@ -99,12 +99,53 @@ class _OldSub(ast.NodeTransformer):
 
     def visit_Call(self, node):
         if isinstance(node.func, ast.Name) and node.func.id == "old":
-            code = compile(ast.Expression(node.args[0]), "<old>", "eval")
+            code = compile(ast.fix_missing_locations(ast.Expression(node.args[0])), "<old>", "eval")
             v = eval(code, self.pre_ns)
             name = "__old_%d" % len(self.vals)
             self.vals[name] = v
             return ast.copy_location(ast.Name(id=name, ctx=ast.Load()), node)
         return self.generic_visit(node)
+
+
+TOL = 1e-6
+
+
+def _tol(a, b):
+    return max(TOL, 1e-12 * max(abs(a), abs(b)))
+
+
+def _fcmp(op, a, b):
+    """Comparison used when the contract text is evaluated natively: exact on
+    ints, within TOL (1 microsecond) when a float is involved."""
+    isnum = lambda x: isinstance(x, (int, float)) and not isinstance(x, bool)
+    if isinstance(a, (tuple, list)) and isinstance(b, (tuple, list)) and op in ("Eq", "NotEq"):
+        r = len(a) == len(b) and all(_fcmp("Eq", x, y) for x, y in zip(a, b))
+        return r if op == "Eq" else not r
+    if not (isnum(a) and isnum(b)) or not (isinstance(a, float) or isinstance(b, float)):
+        return {"Eq": lambda: a == b, "NotEq": lambda: a != b, "Lt": lambda: a < b,
+                "LtE": lambda: a <= b, "Gt": lambda: a > b, "GtE": lambda: a >= b,
+                "Is": lambda: a is b, "IsNot": lambda: a is not b,
+                "In": lambda: a in b, "NotIn": lambda: a not in b}[op]()
+    t = _tol(a, b)
+    return {"Eq": abs(a - b) <= t, "NotEq": abs(a - b) > t, "Lt": a < b + t,
+            "LtE": a <= b + t, "Gt": a > b - t, "GtE": a >= b - t}[op]
+
+
+class _CmpSub(ast.NodeTransformer):
+    def visit_Compare(self, node):
+        self.generic_visit(node)
+        if any(isinstance(o, (ast.Is, ast.IsNot, ast.In, ast.NotIn)) for o in node.ops):
+            return node
+        parts = []
+        left = node.left
+        for op, right in zip(node.ops, node.comparators):
+            parts.append(ast.Call(func=ast.Name(id="_fcmp", ctx=ast.Load()),
+                                  args=[ast.Constant(type(op).__name__), left, right],
+                                  keywords=[]))
+            left = right
+        if len(parts) == 1:
+            return ast.copy_location(parts[0], node)
+        return ast.copy_location(ast.BoolOp(op=ast.And(), values=parts), node)
 
 
 def native_ns(mods, mode):
@@ -114,12 +155,16 @@ def native_ns(mods, mode):
     ns = {k: getattr(cal, k) for k in dir(cal) if not k.startswith("__")}
     ns.update({k: getattr(nat, k) for k in dir(nat) if not k.startswith("__")})
     ns["CALENDAR"] = mods["data"].CALENDAR
+    ns["_fcmp"] = _fcmp
+    cal.isint = lambda x: (not isinstance(x, float)) or abs(x - round(x)) <= TOL
+    ns["isint"] = lambda x: (not isinstance(x, float)) or abs(x - round(x)) <= TOL
     return ns
 
 
 def eval_clause(text, ns, pre_ns):
     tree = ast.parse(text.strip(), mode="eval")
     sub = _OldSub(pre_ns)
+    tree = _CmpSub().visit(tree)
     tree = ast.fix_missing_locations(sub.visit(tree))
     ns2 = dict(ns)
     ns2.update(sub.vals)
@@ -230,9 +275,7 @@ def replay(rep, repo, verbose=True):
 
 
 def _eq(a, b):
-    if isinstance(a, (tuple, list)) and isinstance(b, (tuple, list)):
-        return len(a) == len(b) and all(_eq(x, y) for x, y in zip(a, b))
-    return a == b
+    return _fcmp("Eq", a, b)
 
 
 def _show(v):
@@ -250,12 +293,128 @@ def _show(v):
     return repr(v)
 
 
+POOLS = [
+    ("_year", [-401, -400, -101, -100, -5, -4, -1, 0, 1, 3, 4, 5, 99, 100, 101,
+               399, 400, 401, 1899, 1900, 1999, 2000, 2001, 2003, 2004, 2019,
+               2020, 2100, 9999, 10000]),
+    ("start_year", [-401, -4, -1, 0, 1, 4, 1999, 2000, 2004]),
+    ("end_year", [-400, -5, 0, 1, 3, 4, 100, 400, 2000, 2004, 2400]),
+    ("year", [-401, -400, -101, -100, -5, -4, -1, 0, 1, 3, 4, 5, 99, 100, 101,
+              399, 400, 401, 1899, 1900, 1999, 2000, 2001, 2003, 2004, 2019,
+              2020, 2100, 9999, 10000]),
+    ("month", [1, 2, 3, 4, 5, 6, 7, 8, 9, 10, 11, 12, 0, 13, -1, 24]),
+    ("day_of_month", [-400, -366, -31, -1, 0, 1, 2, 27, 28, 29, 30, 31, 32, 59,
+                      60, 61, 365, 366, 367, 400, 800]),
+    ("day_of_year", [-366, -365, -1, 0, 1, 2, 59, 60, 61, 364, 365, 366, 367,
+                     730, 731, 732]),
+    ("week_of_year", [-53, -52, -1, 0, 1, 2, 51, 52, 53, 54, 104, 105, 106]),
+    ("day_of_week", [-7, -6, 0, 1, 2, 3, 4, 5, 6, 7, 8, 14, 15]),
+    ("hour_of_day", [0, 1, 11, 12, 23, 24, -1, -24, -25, 25, 47, 48, 0.5, 23.75,
+                     6.0625]),
+    ("minute_of_hour", [0, 1, 29, 30, 59, 60, 61, -1, -60, -61, 119, 120, 1440,
+                        -1440, 0.5, 59.75]),
+    ("second_of_minute", [0, 1, 30, 59, 60, 61, -1, -60, 3599, 3600, 86399, 86400,
+                          -86400, 0.5, 59.999]),
+    ("_time_zone._hours", [0, 1, -1, 5, -5, 12, -12, 14, 23, -23, 24, 25, 99, -99]),
+    ("_time_zone._minutes", [0, 30, -30, 45, -45, 59, -59, 1, -1]),
+    ("_years", [0, 1, -1, 4, -4, 100, -100, 400]),
+    ("_months", [0, 1, -1, 2, 11, 12, 13, -12, -13, 25, -25]),
+    ("_weeks", [0, 1, -1, 2, 52, 53, -53, 1000]),
+    ("_days", [0, 1, -1, 7, 28, 29, 30, 31, -31, 365, 366, -365, -366, 800, -800,
+               146097]),
+    ("_hours", [0, 1, -1, 23, 24, 25, -24, -25, 48, 0.5, -0.5, 1000]),
+    ("_minutes", [0, 1, -1, 59, 60, 61, -60, 1440, -1441, 0.5]),
+    ("_seconds", [0, 1, -1, 59, 60, 61, -60, 3600, 86400, -86401, 0.5, 0.001]),
+    ("num_months", [0, 1, -1, 2, 11, 12, 13, -12, -13, 25, -25, 48]),
+    ("other", [0, 1, -1, 2, 3, -3, 10]),
+]
+GENERIC = [0, 1, -1, 2, -2, 3, 7, 12, 24, 59, 60, 100, 365, 366]
+
+
+def pool_for(sym, sort):
+    name = sym[2:] if sym.startswith("p:") else sym
+    best = None
+    for pat, vals in POOLS:
+        if name.endswith(pat) or (("." + pat) in name) or name == pat:
+            if best is None or len(pat) > len(best[0]):
+                best = (pat, vals)
+    vals = list(best[1]) if best else list(GENERIC)
+    if sort == "Int":
+        vals = [v for v in vals if v == int(v)]
+    if sort == "Bool":
+        vals = [False, True]
+    return vals
+
+
+def syms_of(recipe, acc):
+    if isinstance(recipe, dict):
+        if "sym" in recipe:
+            acc[recipe["sym"]] = recipe["sort"]
+        for v in recipe.values():
+            syms_of(v, acc)
+    elif isinstance(recipe, list):
+        for v in recipe:
+            syms_of(v, acc)
+    return acc
+
+
+def search(rep, repo, tries, seed, budget_s=60):
+    """Native search for an input violating the contract (bounded)."""
+    import random
+    import time as _time
+    rnd = random.Random(seed)
+    syms = syms_of(rep["recipe"], {})
+    pools = {k: pool_for(k, s) for k, s in syms.items()}
+    t0 = _time.time()
+    evals = 0
+    base = dict(rep.get("model") or {})
+    for i in range(tries):
+        if _time.time() - t0 > budget_s:
+            break
+        model = {}
+        for k in syms:
+            r = rnd.random()
+            if i == 0 and k in base:
+                model[k] = base[k]
+            elif r < 0.15 and k in base:
+                model[k] = base[k]
+            elif r < 0.25 and k in base:
+                try:
+                    model[k] = num(base[k], syms[k]) + rnd.choice([-1, 1])
+                except Exception:
+                    model[k] = rnd.choice(pools[k])
+            else:
+                model[k] = rnd.choice(pools[k])
+        r2 = dict(rep)
+        r2["model"] = model
+        code, out = replay(r2, repo)
+        if code != 2:
+            evals += 1
+        if code == 1:
+            return model, out, evals
+    return None, None, evals
+
+
 def main():
     path = sys.argv[1]
     repo = "/repo"
     if "--repo" in sys.argv:
         repo = sys.argv[sys.argv.index("--repo") + 1]
     rep = json.load(open(path))
+    if "--search" in sys.argv:
+        n = int(sys.argv[sys.argv.index("--search") + 1])
+        seed = int(sys.argv[sys.argv.index("--seed") + 1]) if "--seed" in sys.argv else 0
+        budget = int(sys.argv[sys.argv.index("--budget") + 1]) if "--budget" in sys.argv else 60
+        model, out, evals = search(rep, repo, n, seed, budget)
+        if model is None:
+            print(json.dumps({"verdict": "no failing input found", "evaluations": evals}))
+            sys.exit(0)
+        rep["model"] = {k: str(v) for k, v in model.items()}
+        rep["found_by"] = "native search (%d evaluations)" % evals
+        json.dump(rep, open(path, "w"), indent=1, default=str)
+        out["evaluations"] = evals
+        print(json.dumps(out, indent=1, default=str))
+        sys.exit(1)
     code, out = replay(rep, repo)
     print(json.dumps(out, indent=1, default=str))
     sys.exit(code)
